@@ -18,7 +18,7 @@ import os
 
 from harness.common import VERIF, REPO, enc, run_driver
 
-from insights.core import (CommandParser, JSONParser, YAMLParser, TextFileOutput, LogFileOutput,
+from insights.core import (Parser, CommandParser, JSONParser, YAMLParser, TextFileOutput, LogFileOutput,
                            Syslog, SafeLoader)
 from insights.core.exceptions import ContentException, ParseException, SkipComponent
 from insights.tests import context_wrap
@@ -999,6 +999,112 @@ def after_impl(case):
         return "EXC:" + type(e).__name__
 
 
+# ---- several parsers built one after the other from the SAME context object (all parsers of one spec): each outcome
+# must be what it is when the parser is built alone from a fresh context; nothing is carried on the context
+
+class PlainParser(Parser):
+    def parse_content(self, content):
+        self.got = content
+
+
+CTX_EXTRAS = [["timed out"], ["invalid option"], ["unable to establish connection", "daemon"], ["failed"], [], None]
+
+
+def gen_ctx_history(rng):
+    ex = rng.sample(CTX_EXTRAS, 3)
+    pool = [p_ for e in ex if e for p_ in e]
+    content = []
+    for _ in range(rng.choice([1, 1, 1, 2, 3])):
+        r = rng.random()
+        if r < 0.35 and pool:
+            ph = rand_case(rng, rng.choice(pool))       # an extra bad line of only one (or two) of the parsers
+        elif r < 0.55:
+            ph = rand_case(rng, rng.choice(REF_SINGLE + REF_MULTI))
+        elif r < 0.65:
+            content.append(json.dumps(gen_container(rng)))
+            continue
+        else:
+            ph = ""
+        content.append((gen_text(rng, 2) + " " + ph + " " + gen_text(rng, 2)).strip())
+    builds = [{"kind": "cmd", "extra": ex[0]}, {"kind": "cmd", "extra": ex[1]}]
+    builds += [rng.choice([{"kind": "cmd", "extra": ex[2]}, {"kind": "plain"}, {"kind": "json"},
+                           {"kind": "log", "term": rng.choice(TERM_POOL)}]) for _ in range(rng.randint(0, 2))]
+    rng.shuffle(builds)                                  # either CommandParser goes first
+    return {"op": "ctxseq", "content": content, "builds": builds}
+
+
+def ctx_history_eval(case):
+    content = case["content"]
+    orig = list(content)
+    ctx = context_wrap(list(content))
+    held = ctx.content
+    outs, canon_outs, lines, verdicts = [], [], [], []
+    for i, b in enumerate(case["builds"]):
+        where = "construction %d of %d (%s%s, after %s)" % (i + 1, len(case["builds"]), b["kind"],
+                                                            " extra=%r" % (b["extra"],) if b["kind"] == "cmd" else "",
+                                                            [x["kind"] for x in case["builds"][:i]] or "nothing")
+        desc, fid = None, None
+        if b["kind"] == "cmd":
+            cls = PlainCmd if b["extra"] is None else extra_cmd(list(b["extra"]))
+            try:
+                out = ("OK", cls(ctx).got, cls.__name__)
+            except ContentException as e:
+                out = ("CE", str(e))
+            except BaseException as e:  # noqa
+                out = ("EXC", type(e).__name__)
+            one = {"op": "cmd", "extra": b["extra"], "content": orig}
+            canon_outs.append(cmd_canon(out))
+            lines.append(cmd_line(one))
+            desc = cmd_oracle(one, out)
+        elif b["kind"] == "plain":
+            try:
+                out = ("OK", PlainParser(ctx).got)
+                desc = None if out[1] == orig else "a plain Parser received altered content: %r" % (out[1],)
+            except BaseException as e:  # noqa
+                out = ("EXC", type(e).__name__)
+                desc = "a plain Parser raised %s" % out[1]
+        elif b["kind"] == "json":
+            try:
+                pj = PlainJson(ctx)
+                out = ("DATA", pj.data, getattr(pj, "unparsed_lines", None))
+            except ContentException:
+                out = ("EXC", "ContentException")
+            except SkipComponent:
+                out = ("SKIP",)
+            except ParseException:
+                out = ("PE",)
+            except BaseException as e:  # noqa
+                out = ("EXC", type(e).__name__)
+            one = {"op": "json", "content": orig, "noise": 0, "intent": "plain"}
+            canon_outs.append(doc_canon(out))
+            lines.append(json_line(one))
+            desc, fid = json_oracle(one, out)
+        else:
+            try:
+                obj = PlainLog(ctx)
+                got = [d["raw_message"] for d in obj.get(b["term"])]
+                out = ("OK", list(obj.lines), got)
+                canon_outs.append("OK\t" + "\t".join(fields_list(got)))
+                if out[1] != orig:
+                    desc = "a LogFileOutput holds altered lines: %r" % (out[1],)
+                elif got != [l for l in orig if b["term"] in l]:
+                    desc = "get() is not plain filtering: %r" % (got,)
+            except BaseException as e:  # noqa
+                out = ("EXC", type(e).__name__)
+                canon_outs.append("EXC:" + out[1])
+                desc = "a LogFileOutput raised %s" % out[1]
+            lines.append("get\tA\tN\t0\t" + "\t".join(term_fields(b["term"]) + fields_list(orig)))
+        outs.append(out)
+        if desc:
+            verdicts.append((where + ": " + desc, fid))
+        if ctx.content is not held or list(ctx.content) != orig:
+            verdicts.append((where + ": the context's content was changed to %r" % (ctx.content,), None))
+            break
+    real = [v for v in verdicts if v[1] is None]
+    verdict = real[0] if real else verdicts[0] if verdicts else (None, None)
+    return outs, canon_outs, lines, verdict
+
+
 # ---- histories: the result of a get_after call must not depend on the calls made before it in the same process
 
 class FlexLog(LogFileOutput):
@@ -1232,6 +1338,8 @@ def eval_case(case):
         out = after_impl(case)
         ci = out if isinstance(out, str) else "OK\t" + "\t".join(fields_list(out))
         return out, [ci], [after_line(case)], after_oracle(case, out)
+    if op == "ctxseq":
+        return ctx_history_eval(case)
     if op == "afterseq":
         outs = history_impl(case)
         canon_outs, lines, verdict = [], [], (None, None)
@@ -1310,6 +1418,19 @@ def run(chk):
     run_stream(chk, "corpus", corpus + [w["case"] for w in WITNESSES])
 
     primitives(chk, 1500 * mult)
+
+    # ---- 2b. several parsers built one after the other from ONE context object (before the one-parser streams, so that
+    # a failure that depends on earlier constructions is reported with a replay that contains them)
+    def ctx_tag(case, outs):
+        tags = ["ctx-history:builds=%d,first=%s" % (len(outs), case["builds"][0]["kind"])]
+        ce = [o[0] for b, o in zip(case["builds"], outs) if b["kind"] == "cmd"]
+        tags.append("ctx-history:command-outcomes=%s" % ("all-CE" if set(ce) == {"CE"} else "all-OK" if set(ce) == {"OK"} else "mixed"))
+        return tags + ["ctx-history:%s:%s" % (b["kind"], o[0]) for b, o in zip(case["builds"], outs)]
+    cases = [gen_ctx_history(rng) for _ in range(1000 * mult)]
+    for c in cases:
+        chk.case(("ctxseq", json.dumps(c, sort_keys=True)), bool(c["content"]))
+    run_stream(chk, "context-history", cases, ctx_tag)
+    chk.sample(cases[0])
 
     # ---- 3. CommandParser
     def cmd_tag(case, out):
